@@ -781,6 +781,19 @@ class Executor:
             new.body = new.body[:-1] + n.body
             self.loop_ordinals[id(new)] = ordinal
             return self._loop(new, st, k, start_override)
+        if kind == "for" and not (isinstance(n.iter, ast.Call) and isinstance(n.iter.func, ast.Name) and n.iter.func.id in ("range", "zip")):
+            # for t in SEQ (a symbolic sequence)   ==>   for __zi in range(len(SEQ)): t = SEQ[__zi]
+            itv = Evaluator(self, st).eval(n.iter)
+            if isinstance(itv, SeqVal):
+                src = f"for __zi in range(len({ast.unparse(n.iter)})):\n    {ast.unparse(n.target)} = ({ast.unparse(n.iter)})[__zi]\n    pass\n"
+                new = ast.parse(src).body[0]
+                for x in ast.walk(new):
+                    x.lineno = n.lineno
+                    x.col_offset = n.col_offset
+                new.body = new.body[:-1] + n.body
+                self.loop_ordinals[id(new)] = ordinal
+                return self._loop(new, st, k, start_override)
+            raise Outside("for loop over a non-range")
         if kind == "for":
             if not (isinstance(n.iter, ast.Call) and isinstance(n.iter.func, ast.Name) and n.iter.func.id == "range"):
                 raise Outside("for loop over a non-range")
